@@ -498,6 +498,8 @@ def gen_history(seed, tier, classes=None, weights=None, n_ops=(6, 16),
                        1 - r.random() ** 3, 1 - r.random() ** 3, 0.999999])
         ops[-1]["interrupt"] = dict(frac=round(fr, 6),
                                     exc=r.choice(["KeyboardInterrupt", "KeyboardInterrupt", "MemoryError"]))
+        if r.random() < 0.5:
+          ops[-1]["interrupt"]["func"] = round(r.random(), 6)
         s.fitted = False
         if r.random() < 0.9:
           fit_op(s, r.choice([s.data, s.data, s.data, other]) if not s.pre else s.data)
@@ -542,8 +544,10 @@ def gen_crash_sweep(seed, classes, dmax):
   if r.random() < 0.5:
     r.shuffle(fracs)
   for f in fracs:
-    ops.append(dict(op="fit", h=0, data="D0", via=via,
-                    interrupt=dict(frac=round(f, 6), exc=r.choice(["KeyboardInterrupt", "KeyboardInterrupt", "MemoryError"]))))
+    it = dict(frac=round(f, 6), exc=r.choice(["KeyboardInterrupt", "KeyboardInterrupt", "MemoryError"]))
+    if r.random() < 0.5:
+      it["func"] = round(r.random(), 6)
+    ops.append(dict(op="fit", h=0, data="D0", via=via, interrupt=it))
     if r.random() < 0.15:
       ops.append(dict(op="restart", h=0, how="inproc"))
     ops.append(dict(op="fit", h=0, data="D0", via=via))
